@@ -28,7 +28,7 @@ for d in sorted(glob.glob(ROOT + '/seeded/C*')):
     name = os.path.basename(d)
     mp = d + '/meta.json'
     m = json.load(open(mp)) if os.path.exists(mp) else {}
-    if m.get('change') and m.get('needs_in_order_to_manifest') and '--force' not in sys.argv:
+    if name[-1] in 'AB' or (m.get('change') and m.get('needs_in_order_to_manifest') and '--force' not in sys.argv):
         continue
     notes = open(d + '/notes.md').read() if os.path.exists(d + '/notes.md') else ''
     title = notes.splitlines()[0].lstrip('# ').strip() if notes else ''
@@ -43,7 +43,7 @@ for d in sorted(glob.glob(ROOT + '/seeded/C*')):
         'clause_broken': squash(clause),
         'needs_in_order_to_manifest': squash(needs),
         'files': sorted(f for f in os.listdir(d) if f != 'meta.json'),
-        'origin': 'independent sub-agent given only the property text and a scratch worktree (second round: asked for mechanisms other than the first round\'s); rebased by hand where patch.original.diff exists',
+        'origin': 'independent sub-agent given only the property text and a scratch worktree (%s round: told which ideas had been used before and asked for different mechanisms); rebased by hand where patch.original.diff exists' % ('third' if name[-1] in 'EF' else 'second'),
     }
     for k in ('confirmation', 'detection'):
         if k in m:
